@@ -230,7 +230,7 @@ def oracle_generation(sess, g, ig, create, prev_done):
     isid = sess["hd"] and sess["init"] == ident(opk, size)
     counter = int(ig["I"].split()[1]) if ig["I"] else c0
     decs = adds = began = 0
-    in_submit = {}
+    cur = {}                                          # tid -> accesses still owed by the submit call in progress
     vals = []
     ptr = {t: 0 for t in range(len(g["progs"]))}     # next op index per thread (to know submitted values)
     proviso = True
@@ -238,24 +238,32 @@ def oracle_generation(sess, g, ig, create, prev_done):
         head, _, rest = l.partition(" | ")
         f = head.split()
         tid, kind, cnt = int(f[0]), f[1], int(f[2])
-        if kind == "Slot":
-            if began >= c0 + adds:
-                proviso = False
-            began += 1
-            in_submit[tid] = True
-            # the value is the next 's' op of this thread
-            p = g["progs"][tid]
-            while ptr[tid] < len(p) and p[ptr[tid]][0] != "s":
-                ptr[tid] += 1
-            if ptr[tid] < len(p):
-                vals.append(bytes.fromhex(p[ptr[tid]][1])); ptr[tid] += 1
-        elif kind == "Dec":
-            if not in_submit.get(tid):
+        if kind in ("Slot", "Dec"):
+            # one submit call = the slot update (value-carrying submissions only) and the decrement of the counter, in
+            # WHICHEVER order the code performs them: the submission has begun at the first of the two accesses, and from
+            # then on its value belongs to "the submitted values" (a result delivered once the count reached zero must
+            # contain it)
+            owed = cur.get(tid)
+            if not owed or kind not in owed:
                 if began >= c0 + adds:
                     proviso = False
                 began += 1
-            in_submit[tid] = False
-            decs += 1
+                p = g["progs"][tid]
+                while ptr[tid] < len(p) and p[ptr[tid]][0] not in "sn":
+                    ptr[tid] += 1
+                op = p[ptr[tid]] if ptr[tid] < len(p) else ("n",)
+                ptr[tid] += 1
+                if op[0] == "s":
+                    vals.append(bytes.fromhex(op[1]))
+                    owed = {"Slot", "Dec"}
+                else:
+                    owed = {"Dec"}
+                if kind not in owed:
+                    owed = {kind}
+            owed = set(owed) - {kind}
+            cur[tid] = owed
+            if kind == "Dec":
+                decs += 1
         elif kind == "Add":
             if counter == 0:
                 proviso = False
@@ -355,6 +363,31 @@ CORPUS = [
     dict(hd=1, size=8, opk=4, init="00" * 8, gens=[
         dict(c0=1, flavour="over", progs=[[("s", "0100000000000000"), ("s", "0200000000000000")], [("w",)]], sched=[0], sched_kind="corpus")]),
 ]
+
+
+def _hold_sessions():
+    """directed schedules (always run, after the corpus): the LAST participant is granted exactly k accesses, then every
+    other participant runs for as long as it can (schedule entry 0 = lowest-numbered runnable participant), then the held
+    one finishes.  k ranges over every access of a submit call, so each window between two shared accesses of one
+    submission is crossed by complete submissions, collation and waits of the others: the schedules under which a
+    reordering of the accesses inside qt_sinc_submit / collate / expect delivers a wrong result."""
+    out = []
+    vals = ["0100000000000000", "0002000000000000", "0000030000000000"]
+    for nsub in (2, 3):
+        for k in range(0, 5):
+            progs = [[("w",)]] + [[("s", vals[j])] for j in range(nsub)]
+            n = len(progs)
+            out.append(dict(hd=1, size=8, opk=4, init="00" * 8, gens=[
+                dict(c0=nsub, flavour="ok", progs=progs, sched=[n * PREF] * k + [0] * 300, sched_kind="hold")]))
+    # the same with a dynamic expect issued by the held participant before its own submission
+    for k in range(0, 6):
+        progs = [[("w",)], [("s", vals[0])], [("e", 1), ("s", vals[1]), ("s", vals[2])]]
+        out.append(dict(hd=1, size=8, opk=4, init="00" * 8, gens=[
+            dict(c0=2, flavour="ok", progs=progs, sched=[3 * PREF] * k + [0] * 300, sched_kind="hold")]))
+    return out
+
+
+CORPUS += _hold_sessions()
 
 
 def run(ctx):
